@@ -145,9 +145,10 @@ class World(object):
             have = sorted(n for n in self.s.impl.program.line_numbers if n < 65536) or [10]
             t = b'EDIT %d' % rng.choice(have[:3])
         elif op == 'SaveA':
-            t = rng.choice([b'SAVE "SA",A', b'SAVE "SA",a'])
+            # also to character devices (the printer file does not echo the requested file type: round-2 seeded change C16b)
+            t = rng.choice([b'SAVE "SA",A', b'SAVE "SA",a', b'SAVE "LPT1:",A', b'SAVE "SCRN:",A', b'SAVE "LPT1:SA",a'])
         elif op == 'SaveB':
-            t = b'SAVE "SB"'
+            t = rng.choice([b'SAVE "SB"', b'SAVE "SB"', b'SAVE "LPT1:"', b'SAVE "LPT1:SB"'])
         elif op == 'SaveP':
             t = rng.choice([b'SAVE "SP",P', b'SAVE "SP",p'])
         elif op == 'Peek':
